@@ -57,6 +57,8 @@ mod c_conv;
 mod c_misc;
 #[path = "../search/c_scc.rs"]
 mod c_scc;
+#[path = "../search/c_eq.rs"]
+mod c_eq;
 
 use {
     json::J,
